@@ -661,11 +661,23 @@ impl<E: Effect> Executor<E> {
 
         self.processes.insert(id, process);
 
-        // Inject heap data and populate locals with captures
+        // Inject the heap data once, for the captures and the argument together: their heap
+        // indices share the one index space of `heap_data` (see `Worker::handle_action`), and
+        // injecting per value would allocate the whole heap again for each of them.
         let captures_count = captures.len();
-        for value in captures {
-            let injected = self.inject_heap_data(value, &heap_data)?;
-            // Injected into rooted storage (the new frame's locals).
+        let mut values = captures;
+        values.push(argument);
+        let injected = self.inject_heap_data(Value::tuple(crate::types::NIL, values), &heap_data)?;
+        let Value::Tuple(_, injected) = injected else {
+            unreachable!("inject_heap_data preserves the value's shape")
+        };
+        let mut injected_captures = (*injected).clone();
+        let injected_arg = injected_captures
+            .pop()
+            .expect("the argument was pushed above");
+
+        // Populate locals with captures (injected into rooted storage: the new frame's locals).
+        for injected in injected_captures {
             self.retain(&injected);
             let process = self
                 .get_process_mut(id)
@@ -674,7 +686,6 @@ impl<E: Effect> Executor<E> {
         }
 
         // Push argument onto stack
-        let injected_arg = self.inject_heap_data(argument, &heap_data)?;
         self.retain(&injected_arg);
         let process = self
             .get_process_mut(id)
